@@ -118,6 +118,9 @@ func runC04(c *core.Ctx) {
 					c04Case(c, t, ch, k, 1, k-1, caseID+"/w", -1)
 					c04Case(c, t, ch, k, 0, k, caseID+"/from-zero-capacity", -2)
 					c04Case(c, t, ch, k, 0, k, caseID+"/itself", -3)
+					if ch >= 2 {
+						c04Case(c, t, ch, k, max(k-2, 0), k, caseID+"/window-over-partial-frame", -4)
+					}
 				}
 			}
 		}
@@ -216,7 +219,16 @@ func c04CaseBody(c *core.Ctx, t *dyn.TypeOps, ch, k, s, e int, caseID string, fo
 	inst := "AppendSample[" + t.Name + "]"
 	w := mon.NewWorld(t)
 	b := t.Alloc(signal.Allocator{Channels: ch, Length: k, Capacity: k})
-	onRoot := forceCalls == -3
+	ragged := false
+	if forceCalls == -4 {
+		ragged = true
+		// the parent ends in a partly filled frame when the window (which covers
+		// that frame and the spare capacity) is taken; the appends go to the parent
+		forceCalls = 0
+		b = t.Alloc(signal.Allocator{Channels: ch, Length: max(k-2, 0), Capacity: k})
+		c.Obs("windows_taken_over_a_partial_last_frame_of_the_parent", 1)
+	}
+	onRoot := forceCalls == -3 || ragged
 	if onRoot {
 		forceCalls = -1
 		c.Obs("appends_to_a_grown_buffer_itself", 1)
@@ -245,6 +257,9 @@ func c04CaseBody(c *core.Ctx, t *dyn.TypeOps, ch, k, s, e int, caseID string, fo
 	all := b.RawAll()
 	for i := 0; i < all.Len(); i++ {
 		all.Set(i, w.NextStamp())
+	}
+	if ragged {
+		b.AppendSample(w.NextStamp())
 	}
 	root := w.Adopt(b, "parent")
 	win := w.Slice(root, s, e, "window")
